@@ -190,6 +190,7 @@ def replay_parallel(chk, exe, histories, tag, sig_prefix, isolate, meta, replay_
             rep["stderr_tail"] = mm["stderr"][-2500:]
         chk.violation(sig_of(sig_prefix, mm), what, rep)
     chk.cov["evaluations"] += n
+    chk.cov["crashes_in_replay"] = chk.cov.get("crashes_in_replay", 0) + sum(1 for _, mm in found if mm.get("kind") == "crash" or mm.get("later"))
     return len(found), time.time() - t0
 
 
@@ -542,18 +543,26 @@ def run(chk, replay=None):
     if replay:
         return do_replay(chk, replay)
 
-    # 1. design level
-    adtcheck.model_check(chk, SPEC, "RefCountMC", "RefCountMC.cfg" if quick else "RefCountMC_thorough.cfg",
-                         what="conservation, alive iff referenced, no dangling handle, dies at last release, destroyed exactly once")
-    adtcheck.model_check(chk, SPEC, "RefCountConc", "RefCountConc.cfg" if quick else "RefCountConc_thorough.cfg",
-                         what="atomic inc/dec: conservation and single destruction under all interleavings")
+    # 1. design level (the four TLC runs are independent: run them side by side)
+    from concurrent.futures import ThreadPoolExecutor
+    jobs = [("RefCountMC", "RefCountMC.cfg" if quick else "RefCountMC_thorough.cfg", 16,
+             "conservation, alive iff referenced, no dangling handle, dies at last release, destroyed exactly once"),
+            ("RefCountConc", "RefCountConc.cfg" if quick else "RefCountConc_thorough.cfg", 8,
+             "atomic inc/dec: conservation and single destruction under all interleavings"),
+            ("RefCountConc", "RefCountConcSplit.cfg", 4, {"Conservation"}),
+            ("RefCountConc", "RefCountConcSplit2.cfg", 4, {"NotWhileReferenced", "NoUseAfterFree"})]
+    with ThreadPoolExecutor(max_workers=4) as ex:
+        results = list(ex.map(lambda j: tla.run_tlc(os.path.join(SPEC, j[0] + ".tla"), os.path.join(SPEC, j[1]), workers=j[2], timeout=1500), jobs))
     chk.cov["negative_controls"] = []
-    for cfg, expect in (("RefCountConcSplit.cfg", {"Conservation"}), ("RefCountConcSplit2.cfg", {"NotWhileReferenced", "NoUseAfterFree"})):
-        r = tla.run_tlc(os.path.join(SPEC, "RefCountConc.tla"), os.path.join(SPEC, cfg), workers=8, timeout=600)
-        if r.violated not in expect:
+    for (mod, cfg, _, what), r in zip(jobs, results):
+        if isinstance(what, str):
+            chk.require_model_ok(mod + "/" + cfg, r, what)
+            continue
+        # negative control: the same model with the increment split into load and store MUST be refuted
+        if r.violated not in what:
             raise InfraError("negative control %s (increment as load/store) was not refuted by TLC (violated=%s error=%s): "
                              "the invariants would be vacuous\n%s" % (cfg, r.violated, r.error, r.out[-1500:]))
-        chk.cov["negative_controls"].append({"module": "RefCountConc/" + cfg, "refuted_invariant": r.violated,
+        chk.cov["negative_controls"].append({"module": mod + "/" + cfg, "refuted_invariant": r.violated,
                                              "distinct_states": r.distinct, "depth": r.depth})
         chk.log("negative control %s: load/store increment refuted by TLC (invariant %s, %d states)" % (cfg, r.violated, r.distinct))
 
@@ -576,18 +585,31 @@ def run(chk, replay=None):
             chk.count_actions(allh)
             classes |= set((st["a"], st.get("cls")) for h in cover for st in h[-1:])
             chk.cov["generation"][meta["slots"]] = info
-            n, wall = replay_parallel(chk, exe, allh, "c08-seq-" + meta["slots"], API, isolate=500, meta=meta,
-                                      replay_info={"policy": policy, "universe": meta})
+            # a first wave of 2000 sampled histories: if the code under test aborts in many of them (every abort costs a
+            # sanitizer report and a fresh child), the verdict is already established and the bulk is not run
+            pick = set(rnd.sample(range(len(allh)), min(2000, len(allh))))
+            rinfo = {"policy": policy, "universe": meta}
+            n1, wall1 = replay_parallel(chk, exe, [allh[i] for i in sorted(pick)], "c08-seq-" + meta["slots"] + "-w1", API, isolate=100,
+                                        meta=meta, replay_info=rinfo)
+            if chk.cov.get("crashes_in_replay", 0) > 150:
+                chk.note("slots=%s: %d of the first %d replayed histories ended in a sanitizer abort; remaining histories not run"
+                         % (meta["slots"], chk.cov["crashes_in_replay"], len(pick)))
+                break
+            rest = [allh[i] for i in range(len(allh)) if i not in pick]
+            n, wall = replay_parallel(chk, exe, rest, "c08-seq-" + meta["slots"], API, isolate=500, meta=meta, replay_info=rinfo)
+            n, wall = n + n1, wall + wall1
             chk.log("IntrusivePtr slots=%s: %d histories replayed (%d mismatching) in %.1fs" % (meta["slots"], len(allh), n, wall))
             chk.cov["distinct_nontrivial"] += adtcheck._nontrivial_distinct(allh, MUTATORS)
             if meta["slots"] == "BBD":
                 chk.add_sample({"kind": "history", "object": "IntrusivePtr<Base>/<Derived>", "steps": cover[len(cover) // 2]})
-        chk.require_actions(sorted(MUTATORS | {"Bool", "Arrow", "Compare"}))
+        storm = chk.cov.get("crashes_in_replay", 0) > 150
+        if not storm:
+            chk.require_actions(sorted(MUTATORS | {"Bool", "Arrow", "Compare"}))
         need = [("CopyAssign", "self,obj"), ("MoveAssign", "self,obj"), ("RawAssign", "arg=null,dst=obj"), ("MoveAssign", "src=null,dst=obj"),
                 ("ConvCopyCtor", "src=obj,dst=new"), ("Dtor", "obj,kills"), ("CreatorDrop", "last,kills"), ("RefDec", "last,kills"),
                 ("Compare", "types=mixed,different-objects"), ("Compare", "types=same,different-objects")]
         missing = [c for c in need if c not in classes]
-        if missing:
+        if missing and not storm:
             raise InfraError("vacuity guard: input classes never generated: %s" % missing)
         chk.cov["input_classes_covered"] = len(classes)
 
